@@ -516,7 +516,7 @@ func (p *Program) callMods(fm *funcMods, cc *ssa.CallCommon, paramIdx map[*ssa.P
 			case *types.Signature:
 				fm.ms.all = true
 			case *types.Interface:
-				if !pureExternal(full) {
+				if !pureExternal(full) && !sx.boxedExternal(a) {
 					fm.ms.all = true
 				}
 			}
@@ -524,6 +524,17 @@ func (p *Program) callMods(fm *funcMods, cc *ssa.CallCommon, paramIdx map[*ssa.P
 		return
 	}
 	fm.callees = append(fm.callees, calleeUse{callee, cc.Args})
+}
+
+// isAddrExpr: the value is an address computed inside the function (interior or local), not a plain pointer value.
+func isAddrExpr(v ssa.Value) bool {
+	switch x := v.(type) {
+	case *ssa.FieldAddr, *ssa.IndexAddr, *ssa.Global:
+		return true
+	case *ssa.Alloc:
+		return !x.Heap
+	}
+	return false
 }
 
 // ModSummary is the transitive may-modify set of a module function.
@@ -603,6 +614,9 @@ func (p *Program) closure(f *ssa.Function) (*Modset, map[int]bool) {
 					if ri.param != nil && !n.ps[paramIdx[ri.param]] {
 						n.ps[paramIdx[ri.param]] = true
 						changed = true
+					}
+					if !isAddrExpr(cu.args[i+off]) {
+						continue // plain pointer: the callee's absolute keys already cover it
 					}
 					tmp := newModset()
 					p.addRoot(tmp, ri, nil, map[string]bool{})
@@ -717,7 +731,7 @@ func (p *Program) instrMods(ex *Exec, in ssa.Instruction, ms *Modset, loopBlocks
 			cms, ps := p.closureCached(cu.fn)
 			merge(cms)
 			for i := range ps {
-				if i < len(cu.args) {
+				if i < len(cu.args) && isAddrExpr(cu.args[i]) {
 					p.addRoot(ms, p.rootOf(cu.args[i]), loopBlocks, whole)
 				}
 			}
